@@ -35,6 +35,9 @@ func (m *M) valueEq(a, b Value, t types.Type) *smt.Term {
 		if x.Obj == 0 {
 			return smt.True
 		}
+		if x.Sym != nil || y.Sym != nil {
+			abortf("comparison of symbolic element pointers")
+		}
 		return smt.BoolC(pathKey(x.Path) == pathKey(y.Path))
 	case *StructV:
 		y := b.(*StructV)
